@@ -4,6 +4,7 @@ package main
 
 import (
 	"fmt"
+	"go/ast"
 	"go/types"
 	"sort"
 	"strings"
@@ -57,6 +58,7 @@ func (fv *FuncVC) reset() {
 	fv.cardDone = nil
 	fv.allocBoundTerm = ""
 	fv.lockIDs = nil
+	fv.guardN = nil
 	fv.pc = "true"
 	fv.cur = &State{cells: map[*ssa.Alloc]string{}, heaps: map[string]string{}}
 }
@@ -136,6 +138,21 @@ func (fv *FuncVC) runOnce() {
 	if !lockReq {
 		fv.heapGet("LOCK", "(Array Int Int)")
 		fv.emit("(assert (= LOCK@0 ((as const (Array Int Int)) 0)))")
+	} else if len(fv.g.spec.Guarded) > 0 {
+		// ... and with held(...) in the contract: none but the mutexes the preconditions name
+		fv.heapGet("LOCK", "(Array Int Int)")
+		cur := "((as const (Array Int Int)) 0)"
+		for _, r := range con.Requires {
+			ast.Inspect(r.Expr, func(nd ast.Node) bool {
+				if ce, ok := nd.(*ast.CallExpr); ok {
+					if id, ok := ce.Fun.(*ast.Ident); ok && id.Name == "held" && len(ce.Args) == 1 {
+						cur = "(store " + cur + " " + entryEnv.addrOf(ce.Args[0]) + " " + fv.fresh("held0", "Int") + ")"
+					}
+				}
+				return true
+			})
+		}
+		fv.emit("(assert (= LOCK@0 " + cur + "))")
 	}
 	if con != nil {
 		for _, r := range con.Requires {
